@@ -35,6 +35,11 @@ pub struct Plan {
     pub chain_len: usize,
     pub ops: Vec<Op>,
     pub persistent_failure: bool,
+    /// the node runs with blockchain.initial_loading_completed = true: a fetched block whose parent it lacks is
+    /// parked and the consensus processor itself asks the router for the parent (the real missing-parent
+    /// request), so the scripted server may hand over children before their parents
+    #[serde(default)]
+    pub loading_completed: bool,
 }
 
 fn gen(seed: u64, tier: Tier) -> Plan {
@@ -50,6 +55,7 @@ fn gen(seed: u64, tier: Tier) -> Plan {
         chain_len: rng.range(4, 10) as usize,
         ops,
         persistent_failure: rng.chance(1, 60),
+        loading_completed: rng.chance(1, 3),
     }
 }
 
@@ -60,7 +66,7 @@ impl Scenario for C16 {
     fn meta(&self) -> Meta {
         Meta {
             level: "exploration",
-            rule: "run = one real node (batch size in {1,2,3,5,10}) with 2-3 scripted peers authenticated through the real handshake (one of them possibly without a fetch url); universe of 4..10 real chain blocks plus 2 fork blocks plus fake hashes; 5..60/200 operations from {announce a block by a peer (same block by several peers, any height order), announce an unknown hash, timer round (2.1 s + routing timer), complete a pending fetch with the right block / an undecodable body / a different block, fail a pending fetch, disconnect a peer, the consensus processor's request for a block (missing parent) together with / without the peer's own announcement of it}; after each operation everything except fetch completions runs to quiescence. Oracle at the I/O boundary after every operation: per peer the fetches in flight never exceed the batch size; no (peer, hash) is requested while already in flight; within one batch the heights requested from one peer are non-decreasing and no never-requested lower height announced by that peer is skipped; at the end (30 rounds with every fetch succeeding) every announced real block the node still lacks has been requested at least once from a peer with a url; in the persistent-failure variant a block that always fails is requested at most 501 times over 520 rounds. distinct_nontrivial = distinct op-sequence digests with >= 1 quota-full moment or >= 1 failed fetch.",
+            rule: "run = one real node (batch size in {1,2,3,5,10}) with 2-3 scripted peers authenticated through the real handshake (one of them possibly without a fetch url); universe of 4..10 real chain blocks plus 2 fork blocks plus fake hashes; 5..60/200 operations from {announce a block by a peer (same block by several peers, any height order), announce an unknown hash, timer round (2.1 s + routing timer), complete a pending fetch with the right block / an undecodable body / a different block, fail a pending fetch, disconnect a peer, the consensus processor's request for a block (missing parent) together with / without the peer's own announcement of it}; in a third of the runs the node has initial_loading_completed = true and the scripted server hands over children before their parents, so that the consensus processor's own missing-parent requests reach the scheduler; after each operation everything except fetch completions runs to quiescence. Oracle at the I/O boundary after every operation: per peer the fetches in flight never exceed the batch size; no (peer, hash) is requested while already in flight; within one batch the heights requested from one peer are non-decreasing and no never-requested lower height announced by that peer is skipped; at the end (30 rounds with every fetch succeeding) every announced real block the node still lacks has been requested at least once from a peer with a url; in the persistent-failure variant a block that always fails is requested at most 501 times over 520 rounds. distinct_nontrivial = distinct op-sequence digests with >= 1 quota-full moment or >= 1 failed fetch.",
             real: &["BlockchainSyncState", "RoutingThread::process_incoming_block_hash/fetch_next_blocks/process_network_event/process_timer_event/process_event", "Network::process_incoming_block_hash", "VerificationThread::verify_block", "ConsensusThread (BlockFetched)", "handshake"],
             stubs: &["scripted peers on SimNet", "fetch completions chosen by the scenario", "SimClock"],
             assumptions: &["in flight = requested through InterfaceIO::fetch_block_from_peer and not yet completed by the (simulated) network controller"],
@@ -106,7 +112,12 @@ impl Scenario for C16 {
         let mut sim = Sim::new(mix(plan.seed, 161), start);
         let mut opts = NodeOpts::default();
         opts.batch_size = plan.batch;
-        let n = sim.add_node(&w.keys[1].clone(), &w.cfg.clone(), &opts);
+        let mut ncfg = w.cfg.clone();
+        ncfg.blockchain.initial_loading_completed = plan.loading_completed;
+        if plan.loading_completed {
+            r.probe("node_with_loading_completed");
+        }
+        let n = sim.add_node(&w.keys[1].clone(), &ncfg, &opts);
         sim.preload(n, &[w.recs[0].bytes.clone()]);
         sim.init_node(n, false);
         // scripted peers: connect + real handshake answered with their own keys
@@ -301,6 +312,9 @@ impl Scenario for C16 {
                                         bc.blocks.contains_key(&w.recs[*i].parent)
                                     };
                                     if parent_known {
+                                        Some(w.recs[*i].bytes.clone())
+                                    } else if plan.loading_completed {
+                                        r.fault("child_served_before_parent", 1);
                                         Some(w.recs[*i].bytes.clone())
                                     } else {
                                         r.fault("fetch_failed_parent_unknown", 1);
